@@ -357,6 +357,56 @@ def redefinition_stream(ck, rng, n_regs, oracle, tag):
         elif bad:
             nbad += len(bad)
             first = first or dict(rp0, case=desc[bad[0]], coq_case=cases[bad[0]])
+        # a SECOND context object that rewrites the same unit with another factor (an anonymous Context, or a new
+        # context registered under the same name after remove_context): its own definition is the one in force
+        # (integer factors only: Context.redefine() parses its text with a float parser whatever the registry's
+        #  non_int_type is — known finding F123, probed separately below)
+        fac2 = rng.choice([f for f in ["11", "7/3", "0.125", "40"] if f not in (toks[0], newfac)])
+        rhs2 = " ".join([fac2] + toks[1:])
+        lines_c = list(lines)
+        lines_c[i] = " = ".join([nm, rhs2] + parts[2:])
+        C, raw_c = load_generated(lines_c)
+        # the first context is removed and a NEW context with the same name, written as definition text (read in the
+        # registry's numeric type), rewrites the unit differently
+        how = "same-name"
+        A.remove_context("redef")
+        A.load_definitions(["@context redef", f"    {nm} = {rhs2}", "@end"])
+        enter = "redef"
+        rp1 = dict(rp0, second_context={"how": how, "redefinition": f"{nm} = {rhs2}"})
+        cases2 = []
+        with A.context(enter):
+            for a, b in pairs[:30]:
+                x, y = conv(A, a, b), conv(C, a, b)
+                oracle(x == y and type(x) is type(y), f"redefined:{tag}:second-context",
+                       f"a second context ({how}) rewrites {nm} = {rhs2} after one that wrote {newrhs}: 3 {a} -> {b} = {x}, its own definition gives {y}", dict(rp1, a=a, b=b))
+                o = "ODimErr" if x == "DimensionalityError" else outcome_of_number(F(x) / 3)
+                cases2.append(f"RFactor {coq_uc({a: F(1)})} {coq_uc({b: F(1)})} {o}")
+                ck.case(key=("redef2", tag, gi, a, b))
+            # the expansion down to base units sees the definition in force whatever the target is
+            for a in rng.sample(hot, min(len(hot), 25)):
+                ra, rc = A._get_root_units(mkuc(A, {a: F(1)})), C._get_root_units(mkuc(C, {a: F(1)}))
+                oracle(ra[0] == rc[0] and ucd(ra[1]) == ucd(rc[1]), f"redefined:{tag}:second-context-root",
+                       f"a second context ({how}) rewrites {nm} = {rhs2} after one that wrote {newrhs}: root units of {a} = {ra[0]} {dict(ra[1])}, its own definition gives {rc[0]} {dict(rc[1])}", dict(rp1, a=a))
+                ck.case(key=("redef2root", tag, gi, a))
+        bad2 = ck.coq_mismatches(f"redefb{tag}{gi}", gen_header(raw_c), cases2, "ok")
+        total += len(cases2)
+        if bad2 is None:
+            nbad += 1
+            first = first or {"registry": lines_c, "coq": "evaluation failed"}
+        elif bad2:
+            nbad += len(bad2)
+            first = first or dict(rp1, coq_case=cases2[bad2[0]])
+        # F123 probe: a decimal factor given to Context.redefine() programmatically, Fraction registry
+        c3 = pint.Context()
+        c3.redefine(f"{nm} = 2.5 * " + " ".join(toks[2:]) if len(toks) > 2 else f"{nm} = 2.5")
+        try:
+            with A.context(c3):
+                x = A.convert(F(1), nm, nm)
+                f3 = A._get_root_units(mkuc(A, {nm: F(1)}))[0]
+            oracle(isinstance(f3, (int, F)) and not isinstance(f3, bool), "programmatic-redefinition-float",
+                   f"Context.redefine('{nm} = 2.5 ...') in a Fraction registry gives {nm} the root factor {f3!r} ({type(f3).__name__})", dict(rp0, redefinition=f"{nm} = 2.5 * ..."))
+        except Exception as e:
+            oracle(False, "programmatic-redefinition-float", f"Context.redefine('{nm} = 2.5 ...') in a Fraction registry: {type(e).__name__}", dict(rp0))
         ck.count("generated registries with a rewriting context")
     return total, nbad, first
 
